@@ -120,9 +120,21 @@ def marshalY_UnitBytes : Val → Out
 /-- `MarshalJSON` writes `"%d"` in quotes: the reader sees the same string -/
 def marshalJ_UnitBytes : Val → Out := marshalY_UnitBytes
 
+def two63 : Nat := 9223372036854775808
+
+/-- `strconv.ParseInt(s, 10, 64)`: optional sign, digits, int64 range -/
+def parseInt64? (cs : List Char) : Option Int :=
+  match parseInt? cs with
+  | some i => if -(two63 : Int) ≤ i ∧ i < (two63 : Int) then some i else none
+  | none => none
+
+/-- `UnitBytes.DecodeMapstructure`: an int as it is; a string that is a plain int64 exactly (since the repair of the
+    negative / above-2^53 round trip), any other string through `units.RAMInBytes` -/
 def decode_UnitBytes : Val → Out
   | .int i => .ok (.int i)
-  | .str s => ramInBytes s
+  | .str s => match parseInt64? s.toList with
+    | some i => .ok (.int i)
+    | none => ramInBytes s
   | _ => .ok (.int 0)      -- any other kind leaves the zero value, without error
 
 /-! ## DeviceCount — `types/device.go` (no custom marshaller: rendered as the integer) -/
@@ -157,13 +169,13 @@ def marshal_StrSlice : Val → Out
 def decode_ShellCommand : Val → Out
   | .null => .ok .null                 -- mapstructure leaves the zero value on a nil input
   | .str _ => .unmodelled "shellwords"
-  | .seq xs => if allStr xs then .ok (.seq xs) else .err "panic:not-a-string"
+  | .seq xs => if allStr xs then .ok (.seq xs) else .err "invalid-type"
   | _ => .ok .null
 
 def decode_HealthCheckTest : Val → Out
   | .null => .ok .null
   | .str s => .ok (.seq [.str "CMD-SHELL", .str s])
-  | .seq xs => if allStr xs then .ok (.seq xs) else .err "panic:not-a-string"
+  | .seq xs => if allStr xs then .ok (.seq xs) else .err "invalid-type"
   | _ => .err "invalid-type"
 
 def decode_StringList : Val → Out
@@ -261,10 +273,13 @@ def marshalY_Ulimits : Val → Out
     else .ok (.map [("soft", .int (getInt u "Soft")), ("hard", .int (getInt u "Hard"))])
   | _ => .unmodelled "not a UlimitsConfig"
 
+/-- `(*UlimitsConfig).MarshalJSON`: the single value, or `{soft, hard}` with both limits always written -/
+def marshalJ_Ulimits : Val → Out := marshalY_Ulimits
+
+/-- the pre-repair `MarshalJSON` (the struct itself, whose tags all say `omitempty`) — kept for `Neg/C09.lean` -/
 def optInt (k : String) (i : Int) : List (String × Val) := if i = 0 then [] else [(k, .int i)]
 
-/-- `(*UlimitsConfig).MarshalJSON`: the single value, or the struct itself — whose tags all say `omitempty` -/
-def marshalJ_Ulimits : Val → Out
+def marshalJ_Ulimits_old : Val → Out
   | .map u =>
     if getInt u "Single" ≠ 0 then .ok (.int (getInt u "Single"))
     else .ok (.map (optInt "soft" (getInt u "Soft") ++ optInt "hard" (getInt u "Hard")))
@@ -292,7 +307,7 @@ def decode_Ulimits (v : Val) : Out :=
   | .map kvs =>
     match Val.lookup "soft" kvs, Val.lookup "hard" kvs with
     | some (.int s), some (.int h) => .ok (mkUlimit 0 s h)
-    | _, _ => .err "panic:not-an-int"
+    | _, _ => .err "invalid-type"
   | _ => .err "invalid-type"
 
 /-! ## EnvFile — `types/envfile.go`, `transform/envfile.go` -/
@@ -310,17 +325,30 @@ def getBool (kvs : List (String × Val)) (k : String) : Bool :=
 def mkEnvFile (path : String) (required : Bool) (format : String) : Val :=
   .map [("Path", .str path), ("Required", .bool required), ("Format", .str format)]
 
-/-- `EnvFile.MarshalYAML`: the path when required, else `{path, required}` — `Format` is never written -/
+def optStr (k : String) (s : String) : List (String × Val) := if s = "" then [] else [(k, .str s)]
+
+/-- `EnvFile.MarshalYAML`: the bare path when required and without format, else `{path, required[, format]}` -/
 def marshalY_EnvFile : Val → Out
+  | .map e =>
+    if getBool e "Required" && getStr e "Format" == "" then .ok (.str (getStr e "Path"))
+    else .ok (.map ([("path", .str (getStr e "Path")), ("required", .bool (getBool e "Required"))] ++ optStr "format" (getStr e "Format")))
+  | _ => .unmodelled "not an EnvFile"
+
+/-- `(*EnvFile).MarshalJSON`: the bare path when required and without format, else the struct by its tags -/
+def marshalJ_EnvFile : Val → Out
+  | .map e =>
+    if getBool e "Required" && getStr e "Format" == "" then .ok (.str (getStr e "Path"))
+    else .ok (.map (optStr "path" (getStr e "Path") ++ [("required", .bool (getBool e "Required"))] ++ optStr "format" (getStr e "Format")))
+  | _ => .unmodelled "not an EnvFile"
+
+/-- the pre-repair marshallers (`format` never written in YAML, nor in JSON for a required file) — kept for `Neg/C09.lean` -/
+def marshalY_EnvFile_old : Val → Out
   | .map e =>
     if getBool e "Required" then .ok (.str (getStr e "Path"))
     else .ok (.map [("path", .str (getStr e "Path")), ("required", .bool false)])
   | _ => .unmodelled "not an EnvFile"
 
-def optStr (k : String) (s : String) : List (String × Val) := if s = "" then [] else [(k, .str s)]
-
-/-- `(*EnvFile).MarshalJSON`: the path when required, else the struct by its tags -/
-def marshalJ_EnvFile : Val → Out
+def marshalJ_EnvFile_old : Val → Out
   | .map e =>
     if getBool e "Required" then .ok (.str (getStr e "Path"))
     else .ok (.map (optStr "path" (getStr e "Path") ++ [("required", .bool false)] ++ optStr "format" (getStr e "Format")))
@@ -341,15 +369,25 @@ def decode_EnvFile : Val → Out
 
 def mkSSHKey (id path : String) : Val := .map [("ID", .str id), ("Path", .str path)]
 
-/-- `SSHKey.MarshalYAML`: the id, or the text `id: path` (a YAML *string*, not a mapping) -/
+/-- `SSHKey.shortSyntax`: `default` for the default agent, else `id=path` (`id=` for another agent key) -/
+def sshShort (id path : String) : String :=
+  if path = "" ∧ id = "default" then id else id ++ "=" ++ path
+
+/-- `SSHKey.MarshalYAML` / `MarshalJSON`: the short syntax as a string (JSON: properly quoted) -/
 def marshalY_SSHKey : Val → Out
+  | .map k => .ok (.str (sshShort (getStr k "ID") (getStr k "Path")))
+  | _ => .unmodelled "not an SSHKey"
+
+def marshalJ_SSHKey : Val → Out := marshalY_SSHKey
+
+/-- the pre-repair marshallers (`id: path` as a YAML string; bytes that are not JSON) — kept for `Neg/C09.lean` -/
+def marshalY_SSHKey_old : Val → Out
   | .map k =>
     if getStr k "Path" = "" then .ok (.str (getStr k "ID"))
     else .ok (.str (getStr k "ID" ++ ": " ++ getStr k "Path"))
   | _ => .unmodelled "not an SSHKey"
 
-/-- `SSHKey.MarshalJSON`: `"id"`, or the bytes `"id": path` which are not a JSON value -/
-def marshalJ_SSHKey : Val → Out
+def marshalJ_SSHKey_old : Val → Out
   | .map k =>
     if getStr k "Path" = "" then .ok (.str (getStr k "ID"))
     else .err "invalid-json"
@@ -374,6 +412,13 @@ def marshalY_SSHConfig : Val → Out
 def marshalJ_SSHConfig : Val → Out
   | .null => .ok .null
   | .seq ks => match mapOut marshalJ_SSHKey ks with
+    | .ok vs => .ok (.seq vs)
+    | .error e => e
+  | _ => .unmodelled "not an SSHConfig"
+
+def marshal_SSHConfig_with (f : Val → Out) : Val → Out
+  | .null => .ok .null
+  | .seq ks => match mapOut f ks with
     | .ok vs => .ok (.seq vs)
     | .error e => e
   | _ => .unmodelled "not an SSHConfig"
@@ -417,24 +462,25 @@ def fracLoop : Nat → Nat → Bool → List Char → List Char × Nat
 
 def natStr (n : Nat) : List Char := natDigits n
 
+/-- `time.Duration.String` for the magnitude `u` (nanoseconds) -/
+def durBody (u : Nat) : List Char :=
+  if u = 0 then ['0', 's']
+  else if u < 1000 then natStr (fracLoop 0 u false []).2 ++ (fracLoop 0 u false []).1 ++ ['n', 's']
+  else if u < 1000000 then natStr (fracLoop 3 u false []).2 ++ (fracLoop 3 u false []).1 ++ ['µ', 's']
+  else if u < 1000000000 then natStr (fracLoop 6 u false []).2 ++ (fracLoop 6 u false []).1 ++ ['m', 's']
+  else
+    let frac := (fracLoop 9 u false []).1
+    let secs := (fracLoop 9 u false []).2
+    let tail := natStr (secs % 60) ++ frac ++ ['s']
+    let m := secs / 60
+    if m = 0 then tail else
+      let tail := natStr (m % 60) ++ ['m'] ++ tail
+      let h := m / 60
+      if h = 0 then tail else natStr h ++ ['h'] ++ tail
+
 /-- `time.Duration.String` -/
 def durString (d : Int) : String :=
-  let u := d.natAbs
-  let body : List Char :=
-    if u = 0 then "0s".toList
-    else if u < 1000000000 then
-      let (prec, unit) := if u < 1000 then (0, "ns") else if u < 1000000 then (3, "µs") else (6, "ms")
-      let (frac, w) := fracLoop prec u false []
-      natStr w ++ frac ++ unit.toList
-    else
-      let (frac, secs) := fracLoop 9 u false []
-      let tail := natStr (secs % 60) ++ frac ++ ['s']
-      let m := secs / 60
-      if m = 0 then tail else
-        let tail := natStr (m % 60) ++ ['m'] ++ tail
-        let h := m / 60
-        if h = 0 then tail else natStr h ++ ['h'] ++ tail
-  String.ofList (if d < 0 ∧ u ≠ 0 then '-' :: body else body)
+  String.ofList (if d < 0 ∧ d.natAbs ≠ 0 then '-' :: durBody d.natAbs else durBody d.natAbs)
 
 def durUnit : List Char → Option Nat
   | ['n', 's'] => some 1
@@ -447,50 +493,61 @@ def durUnit : List Char → Option Nat
   | ['h'] => some 3600000000000
   | _ => none
 
-def two63 : Nat := 9223372036854775808
-
 inductive DurRes where
   | ok (n : Nat)
   | err
   | unmodelled
 
+/-- the optional fraction after the integer digits: its digits, and what follows -/
+def splitFrac : List Char → List Char × List Char
+  | '.' :: r => (r.takeWhile isDigit, r.dropWhile isDigit)
+  | r => ([], r)
+
+/-- the characters of a unit: neither digits nor the point -/
+def unitChar (c : Char) : Bool := !(isDigit c) && c != '.'
+
+/-- one segment `[0-9]*(\.[0-9]*)?[a-zµμ]+` of `time.ParseDuration`: its value and the rest of the input -/
+def parseSeg (cs : List Char) : DurRes × List Char :=
+  let ip := cs.takeWhile isDigit
+  let r1 := cs.dropWhile isDigit
+  let fp := (splitFrac r1).1
+  let r2 := (splitFrac r1).2
+  if ip.isEmpty && fp.isEmpty then (.err, []) else
+  let us := r2.takeWhile unitChar
+  let r3 := r2.dropWhile unitChar
+  match durUnit us with
+  | none => (.err, [])
+  | some unit =>
+    let v := digitsVal ip
+    if v > two63 then (.err, []) else
+    if v > two63 / unit then (.err, []) else
+    let scale := 10 ^ fp.length
+    let f := digitsVal fp
+    if f ≥ two63 / 10 then (.unmodelled, []) else
+    if f ≠ 0 ∧ unit % scale ≠ 0 then (.unmodelled, []) else
+    let v := v * unit + f * (unit / scale)
+    if v > two63 then (.err, []) else (.ok v, r3)
+
 /-- the segment loop of `time.ParseDuration`; `fuel` ≥ length of the input -/
 def parseDurSegs : Nat → List Char → Nat → DurRes
   | 0, _, _ => .unmodelled
   | _ + 1, [], acc => .ok acc
-  | fuel + 1, cs, acc =>
-    let ip := cs.takeWhile isDigit
-    let r1 := cs.dropWhile isDigit
-    let (fp, r2, hasDot) := match r1 with
-      | '.' :: r => (r.takeWhile isDigit, r.dropWhile isDigit, true)
-      | r => ([], r, false)
-    if ip.isEmpty && fp.isEmpty then .err else
-    let _ := hasDot
-    let us := r2.takeWhile (fun c => !(isDigit c) && c != '.')
-    let r3 := r2.dropWhile (fun c => !(isDigit c) && c != '.')
-    match durUnit us with
-    | none => .err
-    | some unit =>
-      let v := digitsVal ip
-      if v ≥ two63 then .err else
-      if v > two63 / unit then .err else
-      let scale := 10 ^ fp.length
-      let f := digitsVal fp
-      if f ≥ two63 / 10 then .unmodelled else
-      if f ≠ 0 ∧ unit % scale ≠ 0 then .unmodelled else
-      let v := v * unit + f * (unit / scale)
-      if v > two63 then .err else
-      let acc := acc + v
-      if acc > two63 then .err else
-      parseDurSegs fuel r3 acc
+  | fuel + 1, c :: cs, acc =>
+    match parseSeg (c :: cs) with
+    | (.ok v, r3) => if acc + v > two63 then .err else parseDurSegs fuel r3 (acc + v)
+    | (.err, _) => .err
+    | (.unmodelled, _) => .unmodelled
+
+/-- the optional sign -/
+def splitSign : List Char → Bool × List Char
+  | '-' :: r => (true, r)
+  | '+' :: r => (false, r)
+  | r => (false, r)
 
 /-- `time.ParseDuration` -/
 def parseDuration (s : String) : Out :=
-  let cs := s.toList
-  let (neg, cs) := match cs with
-    | '-' :: r => (true, r)
-    | '+' :: r => (false, r)
-    | r => (false, r)
+  let neg := (splitSign s.toList).1
+  let cs := (splitSign s.toList).2
   if cs = ['0'] then .ok (.int 0) else
   if cs.isEmpty then .err "invalid-duration" else
   match parseDurSegs (cs.length + 1) cs 0 with
@@ -533,7 +590,21 @@ def hostLines : List (String × Val) → List String
   | (h, .seq ips) :: r => (strsOf ips).map (joinHost h) ++ hostLines r
   | _ :: r => hostLines r
 
+/-- insertion sort of the entries by `host=` (the hosts of a map are distinct, so stability plays no role) -/
+def insertEntry (e : String × Val) : List (String × Val) → List (String × Val)
+  | [] => [e]
+  | x :: r => if e.1 ++ "=" ≤ x.1 ++ "=" then e :: x :: r else x :: insertEntry e r
+
+def sortEntries (l : List (String × Val)) : List (String × Val) := l.foldr insertEntry []
+
+/-- `HostsList.MarshalYAML/JSON` (`sortedList`): host by host in the order of `host=`, each host's addresses in their order -/
 def marshal_HostsList : Val → Out
+  | .null => .ok .null
+  | .map kvs => .ok (.seq ((hostLines (sortEntries kvs)).map .str))
+  | _ => .unmodelled "not a HostsList"
+
+/-- the pre-repair marshaller sorted whole `host=ip` lines — kept for `Neg/C09.lean` -/
+def marshal_HostsList_old : Val → Out
   | .null => .ok .null
   | .map kvs => .ok (.seq ((sortStrings (hostLines kvs)).map .str))
   | _ => .unmodelled "not a HostsList"
